@@ -494,7 +494,16 @@ class ApplyLinks(Processor):
             # make sure the residue graph is updated; this takes care that
             # nodes are also removed from the fragment graphs in the
             # meta_molecule.nodes['graph'] attribute
+            # the rebuilt graph only has the edges for which there are bonds;
+            # requested edges without a link must stay so that they are
+            # reported as missing
+            requested_edges = [(meta_molecule.nodes[idx]["resid"], meta_molecule.nodes[jdx]["resid"], attrs)
+                               for idx, jdx, attrs in meta_molecule.edges(data=True)]
             meta_molecule.relabel_and_redo_res_graph(mapping={})
+            resid_to_node = {meta_molecule.nodes[node]["resid"]: node for node in meta_molecule.nodes}
+            for resid_a, resid_b, attrs in requested_edges:
+                if resid_a in resid_to_node and resid_b in resid_to_node:
+                    meta_molecule.add_edge(resid_to_node[resid_a], resid_to_node[resid_b], **attrs)
         # now we add all interactions but not the ones that contain the removed
         # nodes
         for inter_type in self.applied_links:
